@@ -377,7 +377,9 @@ func (v *jv) text(sb *strings.Builder) {
 	}
 }
 
-func coqStr(s string) cf.T {
+// Cases are printed in the monomorphic wire format of MappingCorr.v (WRound / WVPtr / WFCons …),
+// which Coq elaborates far faster than polymorphic list literals.
+func wstr(s string) cf.T {
 	ok := true
 	for i := 0; i < len(s); i++ {
 		if s[i] < 0x20 || s[i] > 0x7e || s[i] == '"' {
@@ -386,77 +388,98 @@ func coqStr(s string) cf.T {
 		}
 	}
 	if ok {
-		return cf.T("(s2b \"" + s + "\")")
+		return cf.T("(WS \"" + s + "\")")
 	}
-	return cf.Str(s)
+	return cf.App("WB", cf.Str(s))
 }
 
 func (v *jv) coq() cf.T {
 	switch v.k {
 	case 'n':
-		return "JNull"
+		return "WNull"
 	case 'b':
-		return cf.App("JBool", cf.Bool(v.b))
+		return cf.App("WBool", cf.Bool(v.b))
 	case 'i':
 		n := v.num
 		if strings.HasPrefix(n, "-") {
 			n = "(" + n + ")"
 		}
-		return cf.T("(JNum (NInt " + n + "))")
+		return cf.T("(WInt " + n + ")")
 	case 'd':
-		return cf.App("JNum", cf.App("NDec", coqStr(v.num)))
+		return cf.App("WDec", wstr(v.num))
 	case 's':
-		return cf.App("JStr", coqStr(v.s))
+		return cf.App("WStr", wstr(v.s))
 	case 'a':
-		return cf.App("JArr", cf.ListOf(v.arr, func(e *jv) cf.T { return e.coq() }))
-	default:
-		ts := make([]cf.T, len(v.keys))
-		for i := range v.keys {
-			ts[i] = cf.Pair(coqStr(v.keys[i]), v.vals[i].coq())
+		var sb strings.Builder
+		sb.WriteString("(WArr ")
+		for _, e := range v.arr {
+			sb.WriteString("(WJCons " + string(e.coq()) + " ")
 		}
-		return cf.App("JObj", cf.List(ts))
+		sb.WriteString("WJNil" + strings.Repeat(")", len(v.arr)+1))
+		return cf.T(sb.String())
+	default:
+		var sb strings.Builder
+		sb.WriteString("(WObj ")
+		for i := range v.keys {
+			sb.WriteString("(WMCons " + string(wstr(v.keys[i])) + " " + string(v.vals[i].coq()) + " ")
+		}
+		sb.WriteString("WMNil" + strings.Repeat(")", len(v.keys)+1))
+		return cf.T(sb.String())
 	}
 }
 
 // ---------------------------------------------------------------- real Go value -> record term
 // Reflection over the Go types only (no struct tags): every exported field by its Go name.
 
+func wfields(keys []string, vals []cf.T) string {
+	var sb strings.Builder
+	for i := range keys {
+		sb.WriteString("(WFCons " + string(wstr(keys[i])) + " " + string(vals[i]) + " ")
+	}
+	sb.WriteString("WFNil" + strings.Repeat(")", len(keys)))
+	return sb.String()
+}
+
 func dump(v reflect.Value) cf.T {
 	switch v.Kind() {
 	case reflect.Bool:
-		return cf.App("VBool", cf.Bool(v.Bool()))
+		return cf.App("WVBool", cf.Bool(v.Bool()))
 	case reflect.String:
-		return cf.App("VStr", coqStr(v.String()))
+		return cf.App("WVStr", wstr(v.String()))
 	case reflect.Int, reflect.Int64, reflect.Int32:
-		return cf.App("VInt", cf.Z(v.Int()))
+		return cf.App("WVInt", cf.Z(v.Int()))
 	case reflect.Ptr:
 		if v.IsNil() {
-			return "VNil"
+			return "WVNil"
 		}
 		e := v.Elem()
 		if e.Kind() != reflect.Struct {
-			return cf.App("VUndumpable", coqStr(v.Type().String()))
+			return cf.App("WVUndumpable", wstr(v.Type().String()))
 		}
-		var fs []cf.T
+		var ks []string
+		var vs []cf.T
 		t := e.Type()
 		for i := 0; i < t.NumField(); i++ {
 			if !t.Field(i).IsExported() {
 				continue
 			}
-			fs = append(fs, cf.Pair(coqStr(t.Field(i).Name), dump(e.Field(i))))
+			ks = append(ks, t.Field(i).Name)
+			vs = append(vs, dump(e.Field(i)))
 		}
-		return cf.App("VPtr", cf.List(fs))
+		return cf.T("(WVPtr " + wfields(ks, vs) + ")")
 	case reflect.Slice:
-		ts := make([]cf.T, v.Len())
-		for i := range ts {
-			ts[i] = dump(v.Index(i))
+		var sb strings.Builder
+		sb.WriteString("(WVList ")
+		for i := 0; i < v.Len(); i++ {
+			sb.WriteString("(WLCons " + string(dump(v.Index(i))) + " ")
 		}
-		return cf.App("VList", cf.List(ts))
+		sb.WriteString("WLNil" + strings.Repeat(")", v.Len()+1))
+		return cf.T(sb.String())
 	case reflect.Interface:
 		return dumpAny(v)
 	case reflect.Map:
 		if v.Type().Key().Kind() != reflect.String {
-			return cf.App("VUndumpable", coqStr(v.Type().String()))
+			return cf.App("WVUndumpable", wstr(v.Type().String()))
 		}
 		if v.Type().Elem().Kind() == reflect.Interface {
 			return dumpAny(v) // map[string]interface{}: opaque JSON
@@ -466,25 +489,25 @@ func dump(v reflect.Value) cf.T {
 			keys = append(keys, k.String())
 		}
 		sort.Strings(keys)
-		ts := make([]cf.T, len(keys))
+		vs := make([]cf.T, len(keys))
 		for i, k := range keys {
-			ts[i] = cf.Pair(coqStr(k), dump(v.MapIndex(reflect.ValueOf(k))))
+			vs[i] = dump(v.MapIndex(reflect.ValueOf(k)))
 		}
-		return cf.App("VMap", cf.List(ts))
+		return cf.T("(WVMap " + wfields(keys, vs) + ")")
 	}
-	return cf.App("VUndumpable", coqStr(v.Type().String()))
+	return cf.App("WVUndumpable", wstr(v.Type().String()))
 }
 
 func dumpAny(v reflect.Value) cf.T {
 	b, err := json.Marshal(v.Interface())
 	if err != nil {
-		return cf.App("VUndumpable", coqStr(err.Error()))
+		return cf.App("WVUndumpable", wstr(err.Error()))
 	}
 	t, err := parseJSON(b)
 	if err != nil {
-		return cf.App("VUndumpable", coqStr(err.Error()))
+		return cf.App("WVUndumpable", wstr(err.Error()))
 	}
-	return cf.App("VAny", t.coq())
+	return cf.App("WVAny", t.coq())
 }
 
 // ---------------------------------------------------------------- MapDocument observation
@@ -608,10 +631,10 @@ func execRound(in In) (res vh.Result) {
 	if d := vh.Guard(20*time.Second, "json.Unmarshal(mapping JSON)", func() { uerr = json.Unmarshal(b1, &m2) }); d != nil {
 		return vh.Result{Direct: d}
 	}
-	reparsed := cf.None
+	reparsed := cf.T("WVNone")
 	vok, same := false, false
 	if uerr == nil && m2 != nil {
-		reparsed = cf.Some(dump(reflect.ValueOf(m2)))
+		reparsed = cf.App("WVSome", dump(reflect.ValueOf(m2)))
 		var verr error
 		var b2 []byte
 		if d := vh.Guard(20*time.Second, "Validate/Marshal of the reparsed mapping", func() {
@@ -657,7 +680,7 @@ func execRound(in In) (res vh.Result) {
 		}
 	}
 
-	reopened := cf.None
+	reopened := cf.T("WJNone")
 	if in.Reopen {
 		dir, err := os.MkdirTemp("/tmp", "vh_c16_")
 		if err != nil {
@@ -700,16 +723,16 @@ func execRound(in In) (res vh.Result) {
 			return vh.Result{Direct: d}
 		}
 		if rerr != nil {
-			reopened = cf.Some(cf.App("JStr", coqStr("reopen failed: "+rerr.Error())))
+			reopened = cf.App("WJSome", cf.App("WStr", wstr("reopen failed: "+rerr.Error())))
 		} else if tr, err := parseJSON(jr); err == nil {
-			reopened = cf.Some(tr.coq())
+			reopened = cf.App("WJSome", tr.coq())
 		} else {
-			reopened = cf.Some(cf.App("JStr", coqStr("unparsable mapping JSON after reopen")))
+			reopened = cf.App("WJSome", cf.App("WStr", wstr("unparsable mapping JSON after reopen")))
 		}
 		hist = append(hist, "reopen")
 	}
 
-	term := cf.App("CRound", orig, t1.coq(), reparsed, cf.Bool(vok), cf.Bool(same), reopened)
+	term := cf.App("WRound", orig, t1.coq(), reparsed, cf.Bool(vok), cf.Bool(same), reopened)
 	defaultJSON, _ := json.Marshal(bleve.NewIndexMapping())
 	hist = append(hist, "json-bytes:"+bucket(len(b1)))
 	return vh.Result{Term: term, Nontrivial: !bytes.Equal(b1, defaultJSON), Key: string(b1), Hist: hist}
@@ -775,16 +798,19 @@ func execDecode(in In) vh.Result {
 	if d := vh.Guard(20*time.Second, "json.Unmarshal("+in.Root+")", func() { uerr = json.Unmarshal([]byte(in.Text), target) }); d != nil {
 		return vh.Result{Direct: d}
 	}
-	impl := cf.None
+	impl := cf.T("WVNone")
 	if uerr == nil {
-		impl = cf.Some(dump(reflect.ValueOf(target).Elem()))
+		impl = cf.App("WVSome", dump(reflect.ValueOf(target).Elem()))
 	}
 	h := "decode:ok"
 	if uerr != nil {
 		h = "decode:error"
 	}
-	return vh.Result{Term: cf.App("CDecode", coqStr(in.Root), t.coq(), impl), Nontrivial: true,
-		Hist: []string{"decode", h, "decode-root:" + in.Root, "decode-mut:" + in.Label}}
+	hist := []string{"decode", h, "decode-root:" + in.Root}
+	for _, mu := range strings.Split(in.Label, ",") {
+		hist = append(hist, "decode-mut:"+mu)
+	}
+	return vh.Result{Term: cf.App("WDecode", wstr(in.Root), t.coq(), impl), Nontrivial: true, Hist: hist}
 }
 
 // ---------------------------------------------------------------- generation
@@ -1060,12 +1086,12 @@ func rndDoc(r *vrand.R, depth int, custom *[]string) *DocD {
 		d.EmptyProps = true
 	}
 	for _, name := range propNames {
-		switch k := r.Intn(7); {
+		switch k := r.Intn(10); {
 		case k == 0 && depth < 3:
 			d.Props = append(d.Props, PropD{name, rndDoc(r, depth+1, custom)})
 		case k == 1 || k == 2:
 			sub := &DocD{Enabled: !r.Chance(1, 10), Dynamic: r.Bool()}
-			for i := r.Range(1, 3); i > 0; i-- {
+			for i := 1 + r.Intn(5)/3; i > 0; i-- {
 				sub.Fields = append(sub.Fields, rndField(r, custom))
 			}
 			d.Props = append(d.Props, PropD{name, sub})
@@ -1401,9 +1427,9 @@ func main() {
 	vh.Main(vh.Config{
 		Property:  "C16",
 		Imports:   []string{"Common.Bytes", "Codec.Json", "Codec.StructCodec", "Codec.MappingTables", "Codec.MappingCorr"},
-		CaseType:  "MappingCorr.case",
-		CheckFn:   "MappingCorr.check",
-		ExplainFn: "MappingCorr.explain",
+		CaseType:  "MappingCorr.wcase",
+		CheckFn:   "MappingCorr.wcheck",
+		ExplainFn: "MappingCorr.wexplain",
 		Preamble:  "From Coq Require Import String.\n",
 		Rule: "round: a systematic sweep (every option of FieldMapping / DocumentMapping / IndexMappingImpl set alone to a non-default value, " +
 			"at every place a document mapping can sit) plus random mapping trees (type mappings, sub-mappings to depth 3, all field options, " +
